@@ -144,3 +144,83 @@ package locate
 //@   prop C09
 //@   bytes: key
 //@   ensures found: result1 == nil ==> locHolds(result0, key, true)
+
+// ---- grouping ---------------------------------------------------------------------------------------
+
+// Every key is put into the group of a region whose range contains it.
+//@ func (c *RegionCache) GroupKeysByRegion
+//@   prop C09
+//@   bytes: key
+//@   at call(append) assert grouped: lastLoc != nil && inRange(lastLoc.StartKey, lastLoc.EndKey, k) && id == lastLoc.Region
+
+// ---- cache insertion: epochs never regress -------------------------------------------------------------
+
+//@ spec func verOf(r *Region) uint64 { return r.VerID().ver }
+
+// removeIntersecting: an intersecting cached region is deleted only if it is not newer than the incoming one; if any
+// visited one is newer the incoming region is reported stale and nothing is deleted.
+//@ func (s *SortedRegions) removeIntersecting
+//@   prop C09
+//@   bytes: key
+//@   at call(AscendGreaterOrEqual) iterate older: (forall i int :: 0 <= i && i < len(deleted) ==> deleted[i] != nil && deleted[i].cachedRegion != nil && verOf(deleted[i].cachedRegion) <= verID.ver) given item0 != nil && item0.cachedRegion != nil && item0.cachedRegion.meta != nil
+//@   at call(Delete) assert notstale: !stale
+//@   ensures stale: result1 ==> len(result0) == 0
+//@   ensures older: forall i int :: 0 <= i && i < len(result0) ==> result0[i] != nil && result0[i].cachedRegion != nil && verOf(result0[i].cachedRegion) <= verID.ver
+
+// insertRegionToCache: a region description older (by version or conf version) than the latest cached one of the same
+// region is refused and the index is left alone; an accepted one becomes the latest version of its region id.
+//@ func (mu *regionIndexMu) insertRegionToCache
+//@   prop C09
+//@   bytes: key
+//@   requires cachedRegion != nil && cachedRegion.meta != nil
+//@   typeinv mu.regions != nil && mu.latestVersions != nil && mu.sorted != nil
+//@   ensures refused: old(inDom(mu.latestVersions, cachedRegion.VerID().id)) &&
+//@       (old(mu.latestVersions[cachedRegion.VerID().id]).ver > cachedRegion.VerID().ver || old(mu.latestVersions[cachedRegion.VerID().id]).confVer > cachedRegion.VerID().confVer) ==>
+//@       !result && mu.latestVersions[cachedRegion.VerID().id] == old(mu.latestVersions[cachedRegion.VerID().id])
+//@   ensures installed: result ==> mu.latestVersions[cachedRegion.VerID().id] == cachedRegion.VerID() && mu.regions[cachedRegion.VerID()] == cachedRegion
+//@   ensures kept: !result ==> mu.latestVersions[cachedRegion.VerID().id] == old(mu.latestVersions[cachedRegion.VerID().id])
+
+// ---- range lookups: gap-free stitching ---------------------------------------------------------------------
+
+// chainLocs(res, from): the first location contains `from` and every next location contains the (bounded) end key of the
+// previous one - so the union of the locations is an interval without a gap (locations may overlap); cursorAt: the lookup cursor stands at the end of the chain (or at `from` when nothing was found yet).
+//@ spec func chainLocs(res []*KeyLocation, from []byte) bool {
+//@   return (forall i int :: 0 <= i && i < len(res) ==> res[i] != nil) && (len(res) > 0 ==> inRange(res[0].StartKey, res[0].EndKey, from)) &&
+//@          (forall i int :: 0 <= i && i < len(res)-1 ==> res[i].EndKey != "" && inRange(res[i+1].StartKey, res[i+1].EndKey, res[i].EndKey)) }
+//@ spec func cursorAt(res []*KeyLocation, from []byte, cur []byte) bool { return ite(len(res) == 0, cur == from, res[len(res)-1].EndKey == cur && cur != "") }
+//@ spec func chainRegions(rs []*Region, from []byte) bool {
+//@   return validRegions(rs) && len(rs) > 0 && inRange(rs[0].meta.StartKey, rs[0].meta.EndKey, from) &&
+//@          (forall i int :: 0 <= i && i < len(rs)-1 ==> rs[i].meta.EndKey != "" && inRange(rs[i+1].meta.StartKey, rs[i+1].meta.EndKey, rs[i].meta.EndKey)) }
+
+// Assumed (PD scan + cache insertion are not verified here): when every region in the range has a leader, the regions
+// loaded for a list of ranges form a chain that starts with the region containing the first range's start key.
+//@ func (c *RegionCache) BatchLoadRegionsWithKeyRanges
+//@   trusted
+//@   modifies nothing
+//@   ensures result1 == nil && len(keyRanges) > 0 ==> chainRegions(result0, keyRanges[0].StartKey)
+//@   ensures result1 == nil && len(keyRanges) == 1 ==> forall i int :: 0 <= i && i < len(result0) ==> keyRanges[0].EndKey == "" || result0[i].meta.StartKey < keyRanges[0].EndKey
+
+// LocateKeyRange: the locations returned, in order, cover [startKey, endKey) without a gap: a chain from the region
+// containing startKey to a region that contains the end of the range.
+//@ func (c *RegionCache) LocateKeyRange
+//@   prop C09
+//@   bytes: key
+//@   requires endKey == "" || startKey < endKey
+//@   loop 1 invariant chain: chainLocs(res, old(startKey)) && cursorAt(res, old(startKey), startKey) && (endKey == "" || startKey < endKey)
+//@   loop 2 invariant chain: chainLocs(res, old(startKey)) && -1 <= rangeindex && rangeindex < len(batchRegions) && chainRegions(batchRegions, startKey) && (endKey == "" || startKey < endKey) && (forall i int :: 0 <= i && i < len(batchRegions) ==> endKey == "" || batchRegions[i].meta.StartKey < endKey)
+//@   loop 2 invariant cursor: ite(rangeindex < 0, cursorAt(res, old(startKey), startKey), len(res) > 0 && res[len(res)-1].EndKey == batchRegions[rangeindex].meta.EndKey && res[len(res)-1].StartKey == batchRegions[rangeindex].meta.StartKey)
+//@   ensures chain: result1 == nil ==> len(result0) > 0 && chainLocs(result0, startKey) && inRangeByEnd(result0[len(result0)-1].StartKey, result0[len(result0)-1].EndKey, endKey)
+
+// AscendGreaterOrEqual (cache scan): the regions collected form a gap-free chain starting at the region that contains
+// startKey, each one starting before the (bounded) end of the scan.
+//@ spec func chainRegionsOpt(rs []*Region, from []byte) bool {
+//@   return validRegions(rs) && (len(rs) > 0 ==> inRange(rs[0].meta.StartKey, rs[0].meta.EndKey, from)) &&
+//@          (forall i int :: 0 <= i && i < len(rs)-1 ==> inRange(rs[i+1].meta.StartKey, rs[i+1].meta.EndKey, rs[i].meta.EndKey)) }
+//@ func (s *SortedRegions) AscendGreaterOrEqual
+//@   prop C09
+//@   bytes: key
+//@   at call(AscendGreaterOrEqual) iterate chain: chainRegionsOpt(regions, startKey) given item0 != nil && item0.cachedRegion != nil && item0.cachedRegion.meta != nil
+//@   at call(AscendGreaterOrEqual) iterate cursor: ite(len(regions) == 0, lastStartKey == startKey, lastStartKey == regions[len(regions)-1].meta.EndKey)
+//@   at call(AscendGreaterOrEqual) iterate bounded: forall i int :: 0 <= i && i < len(regions) ==> endKey == "" || regions[i].meta.StartKey < endKey
+//@   ensures chain: chainRegionsOpt(result, startKey)
+//@   ensures bounded: forall i int :: 0 <= i && i < len(result) ==> endKey == "" || result[i].meta.StartKey < endKey
